@@ -810,6 +810,9 @@ class SymBytes:
             return x
         if t in (bytes, bytearray, memoryview) or _isinstance(x, (bytes, bytearray)):
             return SymBytes(list(bytes(x)))
+        its = getattr(t, "items", None)
+        if its is not None and t.__module__ == "kv.bufmodels":
+            return SymBytes(x.items())
         raise TypeError(f"a bytes-like object is required, not {t.__name__!r}")
 
     def has_blob(self):
